@@ -254,24 +254,42 @@ pub fn substitution(out: &mut Out, v: &Vocab, e: &str, b: &Beh, r: &Rendered, sa
     // subexpressions whose value is special: the result must carry everything the enclosing operation sees (sign of zero,
     // infinities, NaN, Integer/Float variant, Decimal scale, extreme integers)
     let special: &[&str] = match e {
-        "f64" => &["-0", "0*-1", "-5%5", "1/0", "-1/0", "0/0", "0.1+0.2", "1/3", "2^0.5", "round(-0.4)", "10^308*10", "5-5"],
-        "num" => &["0.0*-1", "-0.", "7/2", "2^63", "3.0", "6/2", "1/0", "0/0", "2^62+2^62", "9007199254740993", "0.5+0.5", "-9223372036854775807-1"],
+        "f64" => &["-0", "0*-1", "-5%5", "1/0", "-1/0", "0/0", "0.1+0.2", "1/3", "2^0.5", "round(-0.4)", "10^308*10", "5-5",
+                   "max(0/0,0)", "min(1,0/0)", "med(0/0,1,2)", "avg(1/0,1)"],
+        "num" => &["0.0*-1", "-0.", "7/2", "2^63", "3.0", "6/2", "1/0", "0/0", "2^62+2^62", "9007199254740993", "0.5+0.5", "-9223372036854775807-1",
+                   "max(0/0,0)", "min(1,0/0)", "med(0/0,1,2)", "avg(1/0,1)"],
         "dec" => &["1.10", "1.50*2", "0.1+0.2", "1/3", "2.0", "-0.0", "79228162514264337593543950335", "0.0000000000000000000000000001"],
         "cpx" => &["-0", "0*-1", "i*i", "2i", "1/0", "-i", "0-0i", "1/3+i/7"],
         _ => &["-9223372036854775807-1", "7/2", "9223372036854775807", "-7%3", "0*-1"],
     };
+    // the context in every spelling of its first function token (the enclosing operation matters: an aggregate of the same kind,
+    // a function with a branch cut, ...), when it has one and is short; otherwise in the one rendering at hand
+    let mut renderings: Vec<Rendered> = vec![r.clone()];
+    if b.kinds.len() <= 6 {
+        if let Some(k) = b.kinds.iter().find(|k| matches!(k.as_str(), "f1" | "f2" | "fv" | "fa")) {
+            let n = v.keywords_of(e, k).len();
+            for i in 0..n {
+                let mut p2 = Policy::all_fns(e, pol.offset);
+                p2.fn_first = Some(i);
+                if let Some(x) = render(v, e, &b.kinds, &p2) { if x.text != r.text { renderings.push(x); } }
+            }
+        }
+    }
+    let all = b.kinds.len() <= 6;
     for (si, s) in special.iter().enumerate() {
-        if out.stats.items % 4 != (si as u64) % 4 { continue; }          // a quarter of the subexpressions per context
+        if !all && out.stats.items % 4 != (si as u64) % 4 { continue; }          // long contexts: a quarter of the subexpressions each
         let (oe, _) = call(e, s, &ph0);
         out.stats.calls += 1;
         let val = match &oe { Outcome::Ok(x) => x.clone(), _ => continue };
-        let mut ps = r.pieces.clone();
-        ps[hole] = format!("({})", s);
-        let plugged = join(&ps);
-        let (o1, _) = call(e, &plugged, &ph0);
-        let (o2, _) = call(e, &r.text, &val);
-        out.stats.calls += 2;
-        let ctx = json!({"context": b.kinds, "E_text": s, "value_of_E": val.show()});
-        pair(out, "meta_subst", e, &format!("{} with @ = {}", r.text, val.show()), &plugged, &ph0, &o2, Some(o1), &ctx);
+        for rr in renderings.iter() {
+            let mut ps = rr.pieces.clone();
+            ps[hole] = format!("({})", s);
+            let plugged = join(&ps);
+            let (o1, _) = call(e, &plugged, &ph0);
+            let (o2, _) = call(e, &rr.text, &val);
+            out.stats.calls += 2;
+            let ctx = json!({"context": b.kinds, "E_text": s, "value_of_E": val.show()});
+            pair(out, "meta_subst", e, &format!("{} with @ = {}", rr.text, val.show()), &plugged, &ph0, &o2, Some(o1), &ctx);
+        }
     }
 }
